@@ -15,7 +15,14 @@ import (
 // Sig renders the provenance of a value as a normalised string: calls by callee and
 // argument signatures, parameters by index, constants by value, field reads by field name.
 // Locals' names never appear, so renaming and re-ordering independent code does not change it.
-func Sig(v ssa.Value) string { return sig(v, 0, map[ssa.Value]bool{}) }
+func Sig(v ssa.Value) string {
+	s := sig(v, 0, map[ssa.Value]bool{})
+	// a value struct that is spilled, passed on and spilled again renders as *&*&x: one level is enough
+	for strings.Contains(s, "*&*&") {
+		s = strings.ReplaceAll(s, "*&*&", "*&")
+	}
+	return s
+}
 
 // sigValSubst: values rendered as another value (a phi as the operand of one incoming edge,
 // see PhiEdgeReaches).
